@@ -39,9 +39,13 @@ def units(tier):
         sc = hydro.SOLVERS[key]
         for case in sc.cases: us.append(('%s/%s' % (key, sc.case_name(case)), {'key': key, 'case': case, 'tier': tier}))
     us += [(n, dict(k, tier=tier, riemann=True)) for n, k in rk.units('C10', ['selfsimilar'], tier)]
+    us.append(('mader', {'mader': True}))
     return us
 
 
-def run_unit(name, key=None, case=None, tier='quick', riemann=False, pat=None, fam=None):
+def run_unit(name, key=None, case=None, tier='quick', riemann=False, pat=None, fam=None, mader=False):
+    if mader:
+        from props import mader_kit
+        return mader_kit.unit('C10')
     if riemann: return rk.run_unit('C10', pat, fam, tier)
     return propkit.solver_unit(hydro.SOLVERS[key], case, per_path, tier)
